@@ -315,7 +315,12 @@ class DemoStorage(ConflictResolvingStorage):
     def pack(self, t, referencesf, gc=None):
         if gc is None:
             if self._temporary_changes:
-                return self.changes.pack(t, referencesf)
+                # Collecting garbage in the changes alone is only right
+                # while the base is empty: objects in the base refer to
+                # objects in the changes, and the root may be in the base.
+                return self.changes.pack(
+                    t, referencesf,
+                    gc=self.base.lastTransaction() == ZODB.utils.z64)
         elif self._temporary_changes:
             return self.changes.pack(t, referencesf, gc=gc)
         elif gc:
